@@ -7,9 +7,11 @@ import Ibx.Model.Smtp
   writes a reply, the one that assigns the state, the one RSET calls), expressions are rendered canonically
   ($s session, $r receiver, $cmd / $arg the handler's parameters, $p a parameter, $v / $pv a re-assigned local /
   parameter, single-assignment locals replaced by their definitions, helpers of the package looked through), and an
-  exit of a handler is the list of its replies (send:code), calls of interest and state changes with the guard [c]
-  under which it is taken.  Renaming locals or helpers, extracting or inlining a helper, merging nested ifs into &&
-  or rewording a reply / log text leaves every fact unchanged; changing a code, a comparison, an order or a guard
+  exit of a handler is the list of the guards [c] decided on its path, its replies (send:code), calls of interest and
+  state changes, in execution order; the handlers are executed path by path (kit_t1a.go), so a helper that reports to
+  its caller what it did, a default value overwritten under a condition, a guard clause or an else branch, a switch or
+  an if-chain are the same exits.  Renaming locals or helpers, extracting or inlining a helper, merging nested ifs into
+  && or rewording a reply / log text leaves every fact unchanged; changing a code, a comparison, an order or a guard
   does not.
 -/
 namespace Ibx.Tie.Smtp
@@ -20,65 +22,137 @@ theorem commands_tie : Gen.Smtp.commands.map Bytes.ofAscii = commandNames := by 
 
 /-- the command loop hands GREET, READY and MAIL to a handler(cmd, arg); LOGIN / PASSWORD / DATA do not read a command -/
 theorem dispatchStates_tie : Gen.Smtp.dispatchStates = ["GREET", "READY", "MAIL"] := by decide
+/-- the any-state table: the command words the paths through the command loop compare the command equal to before the
+    state dispatch (one list per row of `transitions_tie`, sorted), … -/
 theorem anyState_tie : Gen.Smtp.anyStateCases =
-    [["SEND", "SOML", "SAML", "EXPN", "HELP", "TURN"], ["VRFY"], ["NOOP"], ["RSET"], ["QUIT"]] := by decide
-theorem notImplemented_tie : (Gen.Smtp.anyStateCases.headD []).map Bytes.ofAscii = notImplemented := by decide
-theorem greetCases_tie : Gen.Smtp.greetCases = [["HELO"], ["EHLO"], ["<default>"]] := by decide
-theorem readyCases_tie : Gen.Smtp.readyCases = [["STARTTLS"], ["AUTH"], ["MAIL"], ["EHLO"], ["<default>"]] := by decide
-/-- (the 503 behind the MAIL table counts as its default clause) -/
-theorem mailCases_tie : Gen.Smtp.mailCases = [["RCPT"], ["DATA"], ["EHLO"], ["<default>"]] := by decide
-theorem authCases_tie : Gen.Smtp.authCases = [["PLAIN"], ["LOGIN"], ["<default>"]] := by decide
+    [["EXPN", "HELP", "SAML", "SEND", "SOML", "TURN"], ["NOOP"], ["QUIT"], ["RSET"], ["VRFY"]] := by decide
+/-- … reached exactly when the session is not in DATA, a line could be read (deadline set, ReadLine without error), the
+    state is not LOGIN / PASSWORD, the line parsed, the command word is not empty and is in `commands` -/
+theorem anyStatePreamble_tie : Gen.Smtp.anyStatePreamble =
+    ["[$s.state != DATA]", "[$s.conn.SetReadDeadline(time.Now().Add($s.config.Timeout)) == nil]", "call:ReadLine",
+     "[ReadLine(..)#1 == nil]", "[$s.state != LOGIN]", "[$s.state != PASSWORD]", "[$h(ReadLine(..)#0)#2]",
+     "[$cmd != \"\"]", "[commands[$cmd]]"] := by decide
+/-- the row answered 502 (the first one: `anyState_tie` and the first row of `transitions_tie`) is the model's
+    `notImplemented` (as a set: same words, same number) -/
+theorem notImplemented_tie :
+    ((Gen.Smtp.anyStateCases.headD []).map Bytes.ofAscii).all (notImplemented.contains ·) = true ∧
+    (Gen.Smtp.anyStateCases.headD []).length = notImplemented.length ∧
+    ((Gen.Smtp.anyStateCases.headD []).map Bytes.ofAscii).Nodup := by decide
+/-- the rows of the three handlers' tables (sorted; read off executed paths, so a table written as an if-chain or moved
+    into a helper is the same table) -/
+theorem greetCases_tie : Gen.Smtp.greetCases = [["<default>"], ["EHLO"], ["HELO"]] := by decide
+theorem readyCases_tie : Gen.Smtp.readyCases = [["<default>"], ["AUTH"], ["EHLO"], ["MAIL"], ["STARTTLS"]] := by decide
+/-- (what the MAIL handler does behind its table, the 503, is its default row) -/
+theorem mailCases_tie : Gen.Smtp.mailCases = [["<default>"], ["DATA"], ["EHLO"], ["RCPT"]] := by decide
+theorem authCases_tie : Gen.Smtp.authCases = [["LOGIN"], ["PLAIN"], ["<default>"]] := by decide
 /-- the AUTH method is the first of at most three space-separated words of the argument -/
 theorem authTag_tie : Gen.Smtp.authTag = "strings.SplitN($arg, \" \", 3)[0]" := by decide
 
-/-- the transition table of DESIGN.md C.1 as the source has it: for every clause of the any-state table (`*`) and of
-    the GREET / READY / MAIL tables its exits — the replies by code, the calls of the address policy and of the
-    extension hooks, the changes of state, sender and recipient list, in execution order, each under the guards that
-    lead to it (`Model.Smtp.handleLine`; the relation `Lemmas.Smtp.Step`).  What the MAIL handler does behind its
-    table is `<after>` (503).  Found through the structure of the package: no local, parameter or helper name and no
-    reply / log text takes part. -/
+/-- the exits of RCPT (`Model.Smtp.handleRcpt`), path by path: syntax 501 (argument shorter than 4, or not `TO:`),
+    address 501, then the extension hook: no answer → relay test (550) → limit (552) → append and 250; an answer that
+    denies → the extension's own reply; an answer that defers → the same as no answer; any other answer → the relay test
+    is skipped, limit (552) → append and 250.  The limit test comes after the hook and the policy, before the append. -/
+def rcptExits : List String :=
+    ["[len($arg) < 4]; send:501; return",
+     "[len($arg) >= 4]; [strings.ToUpper($arg[0:3]) != \"TO:\"]; send:501; return",
+     "[len($arg) >= 4]; [strings.ToUpper($arg[0:3]) == \"TO:\"]; call:NewRecipient; [NewRecipient(..)#1 != nil]; send:501; return",
+     "[len($arg) >= 4]; [strings.ToUpper($arg[0:3]) == \"TO:\"]; call:NewRecipient; [NewRecipient(..)#1 == nil]; emit:BeforeRcptToAccepted; [BeforeRcptToAccepted.Emit(..) != nil]; [BeforeRcptToAccepted.Emit(..).Action != event.ActionDeny]; [BeforeRcptToAccepted.Emit(..).Action != event.ActionDefer]; [len($rcpts) < $r.config.MaxRecipients]; set:rcpts=append($rcpts, NewRecipient(..)#0); send:250; return",
+     "[len($arg) >= 4]; [strings.ToUpper($arg[0:3]) == \"TO:\"]; call:NewRecipient; [NewRecipient(..)#1 == nil]; emit:BeforeRcptToAccepted; [BeforeRcptToAccepted.Emit(..) != nil]; [BeforeRcptToAccepted.Emit(..).Action != event.ActionDeny]; [BeforeRcptToAccepted.Emit(..).Action != event.ActionDefer]; [len($rcpts) >= $r.config.MaxRecipients]; send:552; return",
+     "[len($arg) >= 4]; [strings.ToUpper($arg[0:3]) == \"TO:\"]; call:NewRecipient; [NewRecipient(..)#1 == nil]; emit:BeforeRcptToAccepted; [BeforeRcptToAccepted.Emit(..) != nil]; [BeforeRcptToAccepted.Emit(..).Action != event.ActionDeny]; [BeforeRcptToAccepted.Emit(..).Action == event.ActionDefer]; call:ShouldAccept; [!ShouldAccept(..)]; send:550; return",
+     "[len($arg) >= 4]; [strings.ToUpper($arg[0:3]) == \"TO:\"]; call:NewRecipient; [NewRecipient(..)#1 == nil]; emit:BeforeRcptToAccepted; [BeforeRcptToAccepted.Emit(..) != nil]; [BeforeRcptToAccepted.Emit(..).Action != event.ActionDeny]; [BeforeRcptToAccepted.Emit(..).Action == event.ActionDefer]; call:ShouldAccept; [ShouldAccept(..)]; [len($rcpts) < $r.config.MaxRecipients]; set:rcpts=append($rcpts, NewRecipient(..)#0); send:250; return",
+     "[len($arg) >= 4]; [strings.ToUpper($arg[0:3]) == \"TO:\"]; call:NewRecipient; [NewRecipient(..)#1 == nil]; emit:BeforeRcptToAccepted; [BeforeRcptToAccepted.Emit(..) != nil]; [BeforeRcptToAccepted.Emit(..).Action != event.ActionDeny]; [BeforeRcptToAccepted.Emit(..).Action == event.ActionDefer]; call:ShouldAccept; [ShouldAccept(..)]; [len($rcpts) >= $r.config.MaxRecipients]; send:552; return",
+     "[len($arg) >= 4]; [strings.ToUpper($arg[0:3]) == \"TO:\"]; call:NewRecipient; [NewRecipient(..)#1 == nil]; emit:BeforeRcptToAccepted; [BeforeRcptToAccepted.Emit(..) != nil]; [BeforeRcptToAccepted.Emit(..).Action == event.ActionDeny]; send:*; return",
+     "[len($arg) >= 4]; [strings.ToUpper($arg[0:3]) == \"TO:\"]; call:NewRecipient; [NewRecipient(..)#1 == nil]; emit:BeforeRcptToAccepted; [BeforeRcptToAccepted.Emit(..) == nil]; call:ShouldAccept; [!ShouldAccept(..)]; send:550; return",
+     "[len($arg) >= 4]; [strings.ToUpper($arg[0:3]) == \"TO:\"]; call:NewRecipient; [NewRecipient(..)#1 == nil]; emit:BeforeRcptToAccepted; [BeforeRcptToAccepted.Emit(..) == nil]; call:ShouldAccept; [ShouldAccept(..)]; [len($rcpts) < $r.config.MaxRecipients]; set:rcpts=append($rcpts, NewRecipient(..)#0); send:250; return",
+     "[len($arg) >= 4]; [strings.ToUpper($arg[0:3]) == \"TO:\"]; call:NewRecipient; [NewRecipient(..)#1 == nil]; emit:BeforeRcptToAccepted; [BeforeRcptToAccepted.Emit(..) == nil]; call:ShouldAccept; [ShouldAccept(..)]; [len($rcpts) >= $r.config.MaxRecipients]; send:552; return"]
+
+/-- the transition table of DESIGN.md C.1 as the source has it: for every clause of the any-state table (`*`) its
+    exits, and the GREET / READY / MAIL handlers executed path by path (harness/cmd/extract/kit_t1a.go), every exit
+    filed under the command word its path compared the command equal to (`<default>`: to none, which includes what a
+    handler does behind its table) — the guards decided, the replies by code, the calls of the address policy and of
+    the extension hooks, the changes of state, sender and recipient list, in execution order (`Model.Smtp.handleLine`;
+    the relation `Lemmas.Smtp.Step`).  A local has the value it was given ON THAT PATH, a helper that replies is executed
+    in place and each of its exits goes on in the caller with what it returned, an if-chain, a switch, a guard clause, a
+    nested `if` and `&&` are the same decisions: no local, parameter or helper name, no helper boundary and no
+    reply / log text takes part.  Rows sorted by state (`*`, GREET, READY, MAIL) and command words, exits sorted. -/
 theorem transitions_tie : Gen.Smtp.transitions =
     [
-     ("*", "SEND,SOML,SAML,EXPN,HELP,TURN", ["send:502; continue"]),
-     ("*", "VRFY", ["send:252; continue"]),
+     ("*", "EXPN,HELP,SAML,SEND,SOML,TURN", ["send:502; continue"]),
      ("*", "NOOP", ["send:250; continue"]),
-     ("*", "RSET", ["reset; send:250; continue"]),
      ("*", "QUIT", ["send:221; state:QUIT; continue"]),
-     ("GREET", "HELO", ["[$h($arg)#1 != nil]; send:501; return", "send:250; state:READY; return"]),
-     ("GREET", "EHLO", ["[$h($arg)#1 != nil]; send:501; return", "send:250-; send:250-; send:250-; ?[$r.Server.config.TLSEnabled][!$r.Server.config.ForceTLS][$r.Server.tlsConfig != nil][$r.tlsState == nil]send:250-; send:250; state:READY; return"]),
+     ("*", "RSET", ["reset; send:250; continue"]),
+     ("*", "VRFY", ["send:252; continue"]),
      ("GREET", "<default>", ["send:503; return"]),
-     ("READY", "STARTTLS", ["[!$r.Server.config.TLSEnabled]; send:454; return", "[$r.tlsState != nil]; send:454; return", "send:220; state:GREET; return"]),
-     ("READY", "AUTH", ["[strings.SplitN($arg, \" \", 3)[0] == \"PLAIN\"]; [len(strings.SplitN($arg, \" \", 3)) != 2]; send:500; return", "[strings.SplitN($arg, \" \", 3)[0] == \"PLAIN\"]; send:235; return", "[strings.SplitN($arg, \" \", 3)[0] == \"LOGIN\"]; send:334; state:LOGIN; return", "[default]; send:500; return"]),
-     ("READY", "MAIL", ["[fromRegex.FindStringSubmatch($arg) == nil]; send:501; return", "[fromRegex.FindStringSubmatch($arg)[2] != \"\"]; [!$h(fromRegex.FindStringSubmatch($arg)[2])#1]; send:501; return", "[fromRegex.FindStringSubmatch($arg)[2] != \"\"]; [$h(fromRegex.FindStringSubmatch($arg)[2])#0[\"SIZE\"] != \"\"]; [strconv.ParseInt($h(fromRegex.FindStringSubmatch($arg)[2])#0[\"SIZE\"], 10, 32)#1 != nil]; send:501; return", "[fromRegex.FindStringSubmatch($arg)[2] != \"\"]; [$h(fromRegex.FindStringSubmatch($arg)[2])#0[\"SIZE\"] != \"\"]; [int(strconv.ParseInt($h(fromRegex.FindStringSubmatch($arg)[2])#0[\"SIZE\"], 10, 32)#0) > $r.config.MaxMessageBytes]; send:552; return", "call:ParseOrigin; [ParseOrigin(..)#1 != nil]; send:501; return", "call:ParseOrigin; emit:BeforeMailFromAccepted; [$v == event.ActionDeny]; send:*; return", "call:ParseOrigin; emit:BeforeMailFromAccepted; set:from=ParseOrigin(..)#0; call:ShouldAccept; [$v == event.ActionDefer]; [!ShouldAccept(..)]; send:501; return", "call:ParseOrigin; emit:BeforeMailFromAccepted; set:from=ParseOrigin(..)#0; call:ShouldAccept; send:250; state:MAIL; return"]),
-     ("READY", "EHLO", ["reset; send:250; return"]),
+     ("GREET", "EHLO", ["[$h($arg)#1 != nil]; send:501; return",
+        "[$h($arg)#1 == nil]; send:250-; send:250-; send:250-; [!$r.Server.config.TLSEnabled]; send:250; state:READY; return",
+        "[$h($arg)#1 == nil]; send:250-; send:250-; send:250-; [$r.Server.config.TLSEnabled]; [!$r.Server.config.ForceTLS]; [$r.Server.tlsConfig != nil]; [$r.tlsState != nil]; send:250; state:READY; return",
+        "[$h($arg)#1 == nil]; send:250-; send:250-; send:250-; [$r.Server.config.TLSEnabled]; [!$r.Server.config.ForceTLS]; [$r.Server.tlsConfig != nil]; [$r.tlsState == nil]; send:250-; send:250; state:READY; return",
+        "[$h($arg)#1 == nil]; send:250-; send:250-; send:250-; [$r.Server.config.TLSEnabled]; [!$r.Server.config.ForceTLS]; [$r.Server.tlsConfig == nil]; send:250; state:READY; return",
+        "[$h($arg)#1 == nil]; send:250-; send:250-; send:250-; [$r.Server.config.TLSEnabled]; [$r.Server.config.ForceTLS]; send:250; state:READY; return"]),
+     ("GREET", "HELO", ["[$h($arg)#1 != nil]; send:501; return",
+        "[$h($arg)#1 == nil]; send:250; state:READY; return"]),
      ("READY", "<default>", ["send:503; return"]),
-     ("MAIL", "RCPT", ["[len($arg) < 4 || strings.ToUpper($arg[0:3]) != \"TO:\"]; send:501; return", "call:NewRecipient; [NewRecipient(..)#1 != nil]; send:501; return", "call:NewRecipient; emit:BeforeRcptToAccepted; [$v == event.ActionDeny]; send:*; return", "call:NewRecipient; emit:BeforeRcptToAccepted; call:ShouldAccept; [$v == event.ActionDefer]; [!ShouldAccept(..)]; send:550; return", "call:NewRecipient; emit:BeforeRcptToAccepted; call:ShouldAccept; [len($rcpts) >= $r.config.MaxRecipients]; send:552; return", "call:NewRecipient; emit:BeforeRcptToAccepted; call:ShouldAccept; set:rcpts=append($rcpts, NewRecipient(..)#0); send:250; return"]),
-     ("MAIL", "DATA", ["[$arg != \"\"]; send:501; return", "[len($rcpts) == 0]; send:503; return", "state:DATA; return"]),
+     ("READY", "AUTH", ["[strings.SplitN($arg, \" \", 3)[0] != \"PLAIN\"]; [strings.SplitN($arg, \" \", 3)[0] != \"LOGIN\"]; send:500; return",
+        "[strings.SplitN($arg, \" \", 3)[0] != \"PLAIN\"]; [strings.SplitN($arg, \" \", 3)[0] == \"LOGIN\"]; send:334; state:LOGIN; return",
+        "[strings.SplitN($arg, \" \", 3)[0] == \"PLAIN\"]; [len(strings.SplitN($arg, \" \", 3)) != 2]; send:500; return",
+        "[strings.SplitN($arg, \" \", 3)[0] == \"PLAIN\"]; [len(strings.SplitN($arg, \" \", 3)) == 2]; send:235; return"]),
+     ("READY", "EHLO", ["reset; send:250; return"]),
+     ("READY", "MAIL", ["[fromRegex.FindStringSubmatch($arg) != nil]; [fromRegex.FindStringSubmatch($arg)[2] != \"\"]; [!$h(fromRegex.FindStringSubmatch($arg)[2])#1]; send:501; return",
+        "[fromRegex.FindStringSubmatch($arg) != nil]; [fromRegex.FindStringSubmatch($arg)[2] != \"\"]; [$h(fromRegex.FindStringSubmatch($arg)[2])#1]; [$h(fromRegex.FindStringSubmatch($arg)[2])#0[\"SIZE\"] != \"\"]; [strconv.ParseInt($h(fromRegex.FindStringSubmatch($arg)[2])#0[\"SIZE\"], 10, 32)#1 != nil]; send:501; return",
+        "[fromRegex.FindStringSubmatch($arg) != nil]; [fromRegex.FindStringSubmatch($arg)[2] != \"\"]; [$h(fromRegex.FindStringSubmatch($arg)[2])#1]; [$h(fromRegex.FindStringSubmatch($arg)[2])#0[\"SIZE\"] != \"\"]; [strconv.ParseInt($h(fromRegex.FindStringSubmatch($arg)[2])#0[\"SIZE\"], 10, 32)#1 == nil]; [int(strconv.ParseInt($h(fromRegex.FindStringSubmatch($arg)[2])#0[\"SIZE\"], 10, 32)#0) <= $r.config.MaxMessageBytes]; call:ParseOrigin; [ParseOrigin(..)#1 != nil]; send:501; return",
+        "[fromRegex.FindStringSubmatch($arg) != nil]; [fromRegex.FindStringSubmatch($arg)[2] != \"\"]; [$h(fromRegex.FindStringSubmatch($arg)[2])#1]; [$h(fromRegex.FindStringSubmatch($arg)[2])#0[\"SIZE\"] != \"\"]; [strconv.ParseInt($h(fromRegex.FindStringSubmatch($arg)[2])#0[\"SIZE\"], 10, 32)#1 == nil]; [int(strconv.ParseInt($h(fromRegex.FindStringSubmatch($arg)[2])#0[\"SIZE\"], 10, 32)#0) <= $r.config.MaxMessageBytes]; call:ParseOrigin; [ParseOrigin(..)#1 == nil]; emit:BeforeMailFromAccepted; [BeforeMailFromAccepted.Emit(..) != nil]; [BeforeMailFromAccepted.Emit(..).Action != event.ActionDeny]; set:from=ParseOrigin(..)#0; [BeforeMailFromAccepted.Emit(..).Action != event.ActionDefer]; send:250; state:MAIL; return",
+        "[fromRegex.FindStringSubmatch($arg) != nil]; [fromRegex.FindStringSubmatch($arg)[2] != \"\"]; [$h(fromRegex.FindStringSubmatch($arg)[2])#1]; [$h(fromRegex.FindStringSubmatch($arg)[2])#0[\"SIZE\"] != \"\"]; [strconv.ParseInt($h(fromRegex.FindStringSubmatch($arg)[2])#0[\"SIZE\"], 10, 32)#1 == nil]; [int(strconv.ParseInt($h(fromRegex.FindStringSubmatch($arg)[2])#0[\"SIZE\"], 10, 32)#0) <= $r.config.MaxMessageBytes]; call:ParseOrigin; [ParseOrigin(..)#1 == nil]; emit:BeforeMailFromAccepted; [BeforeMailFromAccepted.Emit(..) != nil]; [BeforeMailFromAccepted.Emit(..).Action != event.ActionDeny]; set:from=ParseOrigin(..)#0; [BeforeMailFromAccepted.Emit(..).Action == event.ActionDefer]; call:ShouldAccept; [!ShouldAccept(..)]; send:501; return",
+        "[fromRegex.FindStringSubmatch($arg) != nil]; [fromRegex.FindStringSubmatch($arg)[2] != \"\"]; [$h(fromRegex.FindStringSubmatch($arg)[2])#1]; [$h(fromRegex.FindStringSubmatch($arg)[2])#0[\"SIZE\"] != \"\"]; [strconv.ParseInt($h(fromRegex.FindStringSubmatch($arg)[2])#0[\"SIZE\"], 10, 32)#1 == nil]; [int(strconv.ParseInt($h(fromRegex.FindStringSubmatch($arg)[2])#0[\"SIZE\"], 10, 32)#0) <= $r.config.MaxMessageBytes]; call:ParseOrigin; [ParseOrigin(..)#1 == nil]; emit:BeforeMailFromAccepted; [BeforeMailFromAccepted.Emit(..) != nil]; [BeforeMailFromAccepted.Emit(..).Action != event.ActionDeny]; set:from=ParseOrigin(..)#0; [BeforeMailFromAccepted.Emit(..).Action == event.ActionDefer]; call:ShouldAccept; [ShouldAccept(..)]; send:250; state:MAIL; return",
+        "[fromRegex.FindStringSubmatch($arg) != nil]; [fromRegex.FindStringSubmatch($arg)[2] != \"\"]; [$h(fromRegex.FindStringSubmatch($arg)[2])#1]; [$h(fromRegex.FindStringSubmatch($arg)[2])#0[\"SIZE\"] != \"\"]; [strconv.ParseInt($h(fromRegex.FindStringSubmatch($arg)[2])#0[\"SIZE\"], 10, 32)#1 == nil]; [int(strconv.ParseInt($h(fromRegex.FindStringSubmatch($arg)[2])#0[\"SIZE\"], 10, 32)#0) <= $r.config.MaxMessageBytes]; call:ParseOrigin; [ParseOrigin(..)#1 == nil]; emit:BeforeMailFromAccepted; [BeforeMailFromAccepted.Emit(..) != nil]; [BeforeMailFromAccepted.Emit(..).Action == event.ActionDeny]; send:*; return",
+        "[fromRegex.FindStringSubmatch($arg) != nil]; [fromRegex.FindStringSubmatch($arg)[2] != \"\"]; [$h(fromRegex.FindStringSubmatch($arg)[2])#1]; [$h(fromRegex.FindStringSubmatch($arg)[2])#0[\"SIZE\"] != \"\"]; [strconv.ParseInt($h(fromRegex.FindStringSubmatch($arg)[2])#0[\"SIZE\"], 10, 32)#1 == nil]; [int(strconv.ParseInt($h(fromRegex.FindStringSubmatch($arg)[2])#0[\"SIZE\"], 10, 32)#0) <= $r.config.MaxMessageBytes]; call:ParseOrigin; [ParseOrigin(..)#1 == nil]; emit:BeforeMailFromAccepted; [BeforeMailFromAccepted.Emit(..) == nil]; set:from=ParseOrigin(..)#0; call:ShouldAccept; [!ShouldAccept(..)]; send:501; return",
+        "[fromRegex.FindStringSubmatch($arg) != nil]; [fromRegex.FindStringSubmatch($arg)[2] != \"\"]; [$h(fromRegex.FindStringSubmatch($arg)[2])#1]; [$h(fromRegex.FindStringSubmatch($arg)[2])#0[\"SIZE\"] != \"\"]; [strconv.ParseInt($h(fromRegex.FindStringSubmatch($arg)[2])#0[\"SIZE\"], 10, 32)#1 == nil]; [int(strconv.ParseInt($h(fromRegex.FindStringSubmatch($arg)[2])#0[\"SIZE\"], 10, 32)#0) <= $r.config.MaxMessageBytes]; call:ParseOrigin; [ParseOrigin(..)#1 == nil]; emit:BeforeMailFromAccepted; [BeforeMailFromAccepted.Emit(..) == nil]; set:from=ParseOrigin(..)#0; call:ShouldAccept; [ShouldAccept(..)]; send:250; state:MAIL; return",
+        "[fromRegex.FindStringSubmatch($arg) != nil]; [fromRegex.FindStringSubmatch($arg)[2] != \"\"]; [$h(fromRegex.FindStringSubmatch($arg)[2])#1]; [$h(fromRegex.FindStringSubmatch($arg)[2])#0[\"SIZE\"] != \"\"]; [strconv.ParseInt($h(fromRegex.FindStringSubmatch($arg)[2])#0[\"SIZE\"], 10, 32)#1 == nil]; [int(strconv.ParseInt($h(fromRegex.FindStringSubmatch($arg)[2])#0[\"SIZE\"], 10, 32)#0) > $r.config.MaxMessageBytes]; send:552; return",
+        "[fromRegex.FindStringSubmatch($arg) != nil]; [fromRegex.FindStringSubmatch($arg)[2] != \"\"]; [$h(fromRegex.FindStringSubmatch($arg)[2])#1]; [$h(fromRegex.FindStringSubmatch($arg)[2])#0[\"SIZE\"] == \"\"]; call:ParseOrigin; [ParseOrigin(..)#1 != nil]; send:501; return",
+        "[fromRegex.FindStringSubmatch($arg) != nil]; [fromRegex.FindStringSubmatch($arg)[2] != \"\"]; [$h(fromRegex.FindStringSubmatch($arg)[2])#1]; [$h(fromRegex.FindStringSubmatch($arg)[2])#0[\"SIZE\"] == \"\"]; call:ParseOrigin; [ParseOrigin(..)#1 == nil]; emit:BeforeMailFromAccepted; [BeforeMailFromAccepted.Emit(..) != nil]; [BeforeMailFromAccepted.Emit(..).Action != event.ActionDeny]; set:from=ParseOrigin(..)#0; [BeforeMailFromAccepted.Emit(..).Action != event.ActionDefer]; send:250; state:MAIL; return",
+        "[fromRegex.FindStringSubmatch($arg) != nil]; [fromRegex.FindStringSubmatch($arg)[2] != \"\"]; [$h(fromRegex.FindStringSubmatch($arg)[2])#1]; [$h(fromRegex.FindStringSubmatch($arg)[2])#0[\"SIZE\"] == \"\"]; call:ParseOrigin; [ParseOrigin(..)#1 == nil]; emit:BeforeMailFromAccepted; [BeforeMailFromAccepted.Emit(..) != nil]; [BeforeMailFromAccepted.Emit(..).Action != event.ActionDeny]; set:from=ParseOrigin(..)#0; [BeforeMailFromAccepted.Emit(..).Action == event.ActionDefer]; call:ShouldAccept; [!ShouldAccept(..)]; send:501; return",
+        "[fromRegex.FindStringSubmatch($arg) != nil]; [fromRegex.FindStringSubmatch($arg)[2] != \"\"]; [$h(fromRegex.FindStringSubmatch($arg)[2])#1]; [$h(fromRegex.FindStringSubmatch($arg)[2])#0[\"SIZE\"] == \"\"]; call:ParseOrigin; [ParseOrigin(..)#1 == nil]; emit:BeforeMailFromAccepted; [BeforeMailFromAccepted.Emit(..) != nil]; [BeforeMailFromAccepted.Emit(..).Action != event.ActionDeny]; set:from=ParseOrigin(..)#0; [BeforeMailFromAccepted.Emit(..).Action == event.ActionDefer]; call:ShouldAccept; [ShouldAccept(..)]; send:250; state:MAIL; return",
+        "[fromRegex.FindStringSubmatch($arg) != nil]; [fromRegex.FindStringSubmatch($arg)[2] != \"\"]; [$h(fromRegex.FindStringSubmatch($arg)[2])#1]; [$h(fromRegex.FindStringSubmatch($arg)[2])#0[\"SIZE\"] == \"\"]; call:ParseOrigin; [ParseOrigin(..)#1 == nil]; emit:BeforeMailFromAccepted; [BeforeMailFromAccepted.Emit(..) != nil]; [BeforeMailFromAccepted.Emit(..).Action == event.ActionDeny]; send:*; return",
+        "[fromRegex.FindStringSubmatch($arg) != nil]; [fromRegex.FindStringSubmatch($arg)[2] != \"\"]; [$h(fromRegex.FindStringSubmatch($arg)[2])#1]; [$h(fromRegex.FindStringSubmatch($arg)[2])#0[\"SIZE\"] == \"\"]; call:ParseOrigin; [ParseOrigin(..)#1 == nil]; emit:BeforeMailFromAccepted; [BeforeMailFromAccepted.Emit(..) == nil]; set:from=ParseOrigin(..)#0; call:ShouldAccept; [!ShouldAccept(..)]; send:501; return",
+        "[fromRegex.FindStringSubmatch($arg) != nil]; [fromRegex.FindStringSubmatch($arg)[2] != \"\"]; [$h(fromRegex.FindStringSubmatch($arg)[2])#1]; [$h(fromRegex.FindStringSubmatch($arg)[2])#0[\"SIZE\"] == \"\"]; call:ParseOrigin; [ParseOrigin(..)#1 == nil]; emit:BeforeMailFromAccepted; [BeforeMailFromAccepted.Emit(..) == nil]; set:from=ParseOrigin(..)#0; call:ShouldAccept; [ShouldAccept(..)]; send:250; state:MAIL; return",
+        "[fromRegex.FindStringSubmatch($arg) != nil]; [fromRegex.FindStringSubmatch($arg)[2] == \"\"]; call:ParseOrigin; [ParseOrigin(..)#1 != nil]; send:501; return",
+        "[fromRegex.FindStringSubmatch($arg) != nil]; [fromRegex.FindStringSubmatch($arg)[2] == \"\"]; call:ParseOrigin; [ParseOrigin(..)#1 == nil]; emit:BeforeMailFromAccepted; [BeforeMailFromAccepted.Emit(..) != nil]; [BeforeMailFromAccepted.Emit(..).Action != event.ActionDeny]; set:from=ParseOrigin(..)#0; [BeforeMailFromAccepted.Emit(..).Action != event.ActionDefer]; send:250; state:MAIL; return",
+        "[fromRegex.FindStringSubmatch($arg) != nil]; [fromRegex.FindStringSubmatch($arg)[2] == \"\"]; call:ParseOrigin; [ParseOrigin(..)#1 == nil]; emit:BeforeMailFromAccepted; [BeforeMailFromAccepted.Emit(..) != nil]; [BeforeMailFromAccepted.Emit(..).Action != event.ActionDeny]; set:from=ParseOrigin(..)#0; [BeforeMailFromAccepted.Emit(..).Action == event.ActionDefer]; call:ShouldAccept; [!ShouldAccept(..)]; send:501; return",
+        "[fromRegex.FindStringSubmatch($arg) != nil]; [fromRegex.FindStringSubmatch($arg)[2] == \"\"]; call:ParseOrigin; [ParseOrigin(..)#1 == nil]; emit:BeforeMailFromAccepted; [BeforeMailFromAccepted.Emit(..) != nil]; [BeforeMailFromAccepted.Emit(..).Action != event.ActionDeny]; set:from=ParseOrigin(..)#0; [BeforeMailFromAccepted.Emit(..).Action == event.ActionDefer]; call:ShouldAccept; [ShouldAccept(..)]; send:250; state:MAIL; return",
+        "[fromRegex.FindStringSubmatch($arg) != nil]; [fromRegex.FindStringSubmatch($arg)[2] == \"\"]; call:ParseOrigin; [ParseOrigin(..)#1 == nil]; emit:BeforeMailFromAccepted; [BeforeMailFromAccepted.Emit(..) != nil]; [BeforeMailFromAccepted.Emit(..).Action == event.ActionDeny]; send:*; return",
+        "[fromRegex.FindStringSubmatch($arg) != nil]; [fromRegex.FindStringSubmatch($arg)[2] == \"\"]; call:ParseOrigin; [ParseOrigin(..)#1 == nil]; emit:BeforeMailFromAccepted; [BeforeMailFromAccepted.Emit(..) == nil]; set:from=ParseOrigin(..)#0; call:ShouldAccept; [!ShouldAccept(..)]; send:501; return",
+        "[fromRegex.FindStringSubmatch($arg) != nil]; [fromRegex.FindStringSubmatch($arg)[2] == \"\"]; call:ParseOrigin; [ParseOrigin(..)#1 == nil]; emit:BeforeMailFromAccepted; [BeforeMailFromAccepted.Emit(..) == nil]; set:from=ParseOrigin(..)#0; call:ShouldAccept; [ShouldAccept(..)]; send:250; state:MAIL; return",
+        "[fromRegex.FindStringSubmatch($arg) == nil]; send:501; return"]),
+     ("READY", "STARTTLS", ["[!$r.Server.config.TLSEnabled]; send:454; return",
+        "[$r.Server.config.TLSEnabled]; [$r.tlsState != nil]; send:454; return",
+        "[$r.Server.config.TLSEnabled]; [$r.tlsState == nil]; send:220; state:GREET; return"]),
+     ("MAIL", "<default>", ["send:503; return"]),
+     ("MAIL", "DATA", ["[$arg != \"\"]; send:501; return",
+        "[$arg == \"\"]; [len($rcpts) != 0]; state:DATA; return",
+        "[$arg == \"\"]; [len($rcpts) == 0]; send:503; return"]),
      ("MAIL", "EHLO", ["reset; send:250; return"]),
-     ("MAIL", "<default>", ["send:503; return"])] := by decide +kernel
+     ("MAIL", "RCPT", rcptExits)] := by rfl
 
 /-- reset() keeps a session that has not greeted in GREET (repaired defect F-03) -/
 theorem resetFromGreet_tie : Gen.Smtp.resetFromGreet = "keepsGreet" := by decide
 /-- the DATA phase enforces MaxMessageBytes (repaired defect F-06), and resets on each of its three exits -/
 theorem dataSizeCheck_tie : Gen.Smtp.dataSizeCheck = "afterRead" := by decide
 theorem dataHandlerResets_tie : Gen.Smtp.dataHandlerResets = 3 := by decide
-/-- the four exits of the DATA phase (`Model.Smtp.handleData`): read error → (221 on timeout) QUIT; oversized → 552,
-    reset; Deliver failed → 451, reset; otherwise 250, reset — in this order, with these guards -/
+/-- the exits of the DATA phase (`Model.Smtp.handleData`), path by path: 354, then the read (its deadline could not be
+    set, or the read failed: 221 only on a timeout, QUIT); oversized → 552, reset; Deliver failed → 451, reset; otherwise
+    250, reset — in this order, with these guards -/
 theorem dataPaths_tie : Gen.Smtp.dataPaths =
-    ["send:354; ?call:ReadDotBytes; [$h()#1 != nil]; ?[$h()#1.(net.Error)#1][$h()#1.(net.Error)#0.Timeout()]send:221; state:QUIT; return",
-     "send:354; ?call:ReadDotBytes; [len(ReadDotBytes(..)#0) > $r.config.MaxMessageBytes]; send:552; reset; return",
-     "send:354; ?call:ReadDotBytes; call:Deliver; [Deliver(..) != nil]; send:451; reset; return",
-     "send:354; ?call:ReadDotBytes; call:Deliver; send:250; reset; return"] := by decide +kernel
+    ["send:354; [$r.conn.SetReadDeadline(time.Now().Add($r.config.Timeout)) != nil]; [!$r.conn.SetReadDeadline(time.Now().Add($r.config.Timeout)).(net.Error)#1]; state:QUIT; return",
+     "send:354; [$r.conn.SetReadDeadline(time.Now().Add($r.config.Timeout)) != nil]; [$r.conn.SetReadDeadline(time.Now().Add($r.config.Timeout)).(net.Error)#1]; [!$r.conn.SetReadDeadline(time.Now().Add($r.config.Timeout)).(net.Error)#0.Timeout()]; state:QUIT; return",
+     "send:354; [$r.conn.SetReadDeadline(time.Now().Add($r.config.Timeout)) != nil]; [$r.conn.SetReadDeadline(time.Now().Add($r.config.Timeout)).(net.Error)#1]; [$r.conn.SetReadDeadline(time.Now().Add($r.config.Timeout)).(net.Error)#0.Timeout()]; send:221; state:QUIT; return",
+     "send:354; [$r.conn.SetReadDeadline(time.Now().Add($r.config.Timeout)) == nil]; call:ReadDotBytes; [ReadDotBytes(..)#1 != nil]; [!ReadDotBytes(..)#1.(net.Error)#1]; state:QUIT; return",
+     "send:354; [$r.conn.SetReadDeadline(time.Now().Add($r.config.Timeout)) == nil]; call:ReadDotBytes; [ReadDotBytes(..)#1 != nil]; [ReadDotBytes(..)#1.(net.Error)#1]; [!ReadDotBytes(..)#1.(net.Error)#0.Timeout()]; state:QUIT; return",
+     "send:354; [$r.conn.SetReadDeadline(time.Now().Add($r.config.Timeout)) == nil]; call:ReadDotBytes; [ReadDotBytes(..)#1 != nil]; [ReadDotBytes(..)#1.(net.Error)#1]; [ReadDotBytes(..)#1.(net.Error)#0.Timeout()]; send:221; state:QUIT; return",
+     "send:354; [$r.conn.SetReadDeadline(time.Now().Add($r.config.Timeout)) == nil]; call:ReadDotBytes; [ReadDotBytes(..)#1 == nil]; [len(ReadDotBytes(..)#0) <= $r.config.MaxMessageBytes]; call:Deliver; [Deliver(..) != nil]; send:451; reset; return",
+     "send:354; [$r.conn.SetReadDeadline(time.Now().Add($r.config.Timeout)) == nil]; call:ReadDotBytes; [ReadDotBytes(..)#1 == nil]; [len(ReadDotBytes(..)#0) <= $r.config.MaxMessageBytes]; call:Deliver; [Deliver(..) == nil]; send:250; reset; return",
+     "send:354; [$r.conn.SetReadDeadline(time.Now().Add($r.config.Timeout)) == nil]; call:ReadDotBytes; [ReadDotBytes(..)#1 == nil]; [len(ReadDotBytes(..)#0) > $r.config.MaxMessageBytes]; send:552; reset; return"] := by rfl
 theorem rcptLimitTest_tie : Gen.Smtp.rcptLimitTest = (">=", "MaxRecipients") := by decide
-/-- the six exits of RCPT (`Model.Smtp.handleRcpt`): syntax 501, address 501, extension deny, relay 550 (only when the
-    extension deferred), limit 552 (after the hook and the policy, before the append), accepted 250 after the append -/
-theorem rcptPaths_tie : Gen.Smtp.rcptPaths =
-    ["[len($arg) < 4 || strings.ToUpper($arg[0:3]) != \"TO:\"]; send:501; return",
-     "call:NewRecipient; [NewRecipient(..)#1 != nil]; send:501; return",
-     "call:NewRecipient; emit:BeforeRcptToAccepted; [$v == event.ActionDeny]; send:*; return",
-     "call:NewRecipient; emit:BeforeRcptToAccepted; call:ShouldAccept; [$v == event.ActionDefer]; [!ShouldAccept(..)]; send:550; return",
-     "call:NewRecipient; emit:BeforeRcptToAccepted; call:ShouldAccept; [len($rcpts) >= $r.config.MaxRecipients]; send:552; return",
-     "call:NewRecipient; emit:BeforeRcptToAccepted; call:ShouldAccept; set:rcpts=append($rcpts, NewRecipient(..)#0); send:250; return"] := by decide +kernel
+/-- the RCPT row on its own (the recipient limit and the argument test below are read off its guards) -/
+theorem rcptPaths_tie : Gen.Smtp.rcptPaths = rcptExits := by rfl
 theorem rcptArgMin_tie : Gen.Smtp.rcptArgMin = some ("<", 4) := by decide
 theorem cmdMinLen_tie : Gen.Smtp.cmdMinLen = some ("<", 4) := by decide
 
@@ -88,8 +162,8 @@ theorem fromRegex_tie : Gen.Smtp.fromRegex =
     some "(?i)^FROM:\\s*<((?:(?:\\\\>|[^>])+|\"[^\"]+\"@[^>])+)?>( ([\\w= ]|=<>)+)?$" := by decide
 theorem argsRegex_tie : Gen.Smtp.argsRegex = some " (\\w+)=(\\w+|<>)" := by decide
 
-/-- every index / slice expression of handler.go is one the model accounts for (guards proved in Props.C03) -/
-theorem sliceSites_tie : Gen.Smtp.sliceSites =
+/-- the index / slice expressions the model accounts for (guards proved in Props.C03) -/
+def accountedSites : List String :=
     ["$arg[0:3]",
      "$arg[3:]",
      "$arg[:strings.IndexRune($arg, ' ')]",
@@ -103,7 +177,15 @@ theorem sliceSites_tie : Gen.Smtp.sliceSites =
      "fromRegex.FindStringSubmatch($arg)[1]",
      "fromRegex.FindStringSubmatch($arg)[2]",
      "strings.SplitN($arg, \" \", 3)[0]",
-     "strings.SplitN($arg, \" \", 3)[1]"] := by decide +kernel
+     "strings.SplitN($arg, \" \", 3)[1]"]
+
+/-- every index / slice expression of the package is one of those.  (A SUBSET, not the list itself: an expression
+    that is no longer there — `strings.Cut` instead of `IndexByte` + two slices — cannot panic; what the parsers
+    compute is compared byte for byte by the correspondence runs of C03.  A NEW expression is in no list and leaves
+    this obligation without a proof; an extraction that found nothing — no command loop — does not pass either: the
+    lookup in the command set is always there.) -/
+theorem sliceSites_tie : Gen.Smtp.sliceSites.all (fun s => accountedSites.contains s) = true ∧
+    Gen.Smtp.sliceSites.contains "commands[$cmd]" = true := by decide +kernel
 
 /-- the statements of StoreManager.Deliver the model mirrors are all present -/
 theorem deliverShape_tie : Gen.Smtp.deliverShape.length = 8 := by decide
